@@ -870,6 +870,67 @@ impl<'a> Exec<'a> {
         Ok(())
     }
 
+    /// llg_matcher_compute_ff_tokens with a caller buffer of `len` tokens: "returns the number of
+    /// tokens written"; what is written is a prefix of the forced tokens (= what the call returns
+    /// with a large buffer), nothing else in the buffer is touched, nothing outside it.
+    pub fn op_cff_into(&mut self, h: SlotId, len: usize) -> VResult<()> {
+        let (p, failed) = match self.slots.get_mut(&h) {
+            Some(Slot {
+                h: H::M(MH::C(c)),
+                failed,
+                ..
+            }) => (c.p, failed.is_some()),
+            _ => return Ok(()),
+        };
+        if failed || llg_matcher_is_error(unsafe { &*p }) || unsafe { llg_matcher_is_stopped(&*p) } {
+            return Ok(());
+        }
+        let full = self.mh(h).compute_ff_tokens();
+        if llg_matcher_is_error(unsafe { &*p }) {
+            return Ok(());
+        }
+        let mut buf = vec![FILL; len + 2 * GUARD_WORDS];
+        for i in 0..GUARD_WORDS {
+            buf[i] = CANARY;
+            let n = buf.len();
+            buf[n - 1 - i] = CANARY;
+        }
+        let r = unsafe { llg_matcher_compute_ff_tokens(&mut *p, buf.as_mut_ptr().add(GUARD_WORDS), len) };
+        for k in 0..GUARD_WORDS {
+            if buf[k] != CANARY || buf[buf.len() - 1 - k] != CANARY {
+                return Err(self.viol(
+                    "caller_buffer_bounds",
+                    "write_outside_caller_buffer",
+                    format!("h{h}: canary around the {len}-token ff buffer was overwritten"),
+                ));
+            }
+        }
+        if llg_matcher_is_error(unsafe { &*p }) {
+            return Ok(());
+        }
+        let want = full.len().min(len);
+        if full.len() > len {
+            self.stats.probe("ff_buffer_short");
+        }
+        if r < 0 || r as usize != want {
+            return Err(self.viol(
+                "c_result",
+                "ff_tokens_count",
+                format!("h{h}: compute_ff_tokens into {len} tokens returned {r}, forced tokens are {:?} (expected {want} written)", &full[..full.len().min(8)]),
+            ));
+        }
+        let dest = &buf[GUARD_WORDS..GUARD_WORDS + len];
+        if dest[..want] != full[..want] || dest[want..].iter().any(|x| *x != FILL) {
+            return Err(self.viol(
+                "caller_buffer_contents",
+                "ff_tokens_buffer",
+                format!("h{h}: ff buffer of {len} tokens holds {:?}, forced tokens are {:?}", &dest[..len.min(8)], &full[..full.len().min(8)]),
+            ));
+        }
+        self.ev(format!("cff_into h{h} len={len} r={r}"));
+        Ok(())
+    }
+
     pub fn op_cmask_into(&mut self, h: SlotId, words: usize) -> VResult<()> {
         let nv = self.ctx.n_vocab();
         let exact = nv.div_ceil(32);
@@ -1375,6 +1436,17 @@ impl<'a> Exec<'a> {
                     ctok: ctok.clone(),
                 });
                 let err = m.is_error();
+                if err {
+                    if let Some(e) = m.get_error() {
+                        if is_overflow_panic(&e) {
+                            return Err(self.viol(
+                                "no_arithmetic_overflow",
+                                "overflow:build",
+                                format!("llg_new_matcher: internal arithmetic overflow: {}", short(&e)),
+                            ));
+                        }
+                    }
+                }
                 if !err {
                     // a handle that was built must work: a few honest steps
                     for _ in 0..4 {
